@@ -191,6 +191,31 @@ func jobsFor(prop, tier string) []*Job {
 			Params: p("k", k, "nsrc", nsrc, "capacity", 3, "average", 1, "burst", 2, "maxgap", 14, "t0span", 3), TimeoutS: 120, BranchTimeoutS: 4, IncMs: 1500,
 			Bounds: fmt.Sprintf("rate limiter 1/s burst 2, capacity 3, %d requests from %d sources chosen symbolically, symbolic amounts and gaps (up to 15 s, beyond the entry lifetime): source A's decisions equal those it gets alone", k, nsrc)})
 		}
+	case "C06", "C07", "C15":
+		Ls := []int{0, 2, 5}
+		if thorough {
+			Ls = []int{0, 1, 2, 3, 5, 8}
+		}
+		retries := 1
+		wide := 0
+		if thorough {
+			wide = 1
+		}
+		bd := "one request through Buffer.ServeHTTP with real multibuf (bytes.Buffer/bytes.Reader/io from the standard library interpreted, spill files through the ghost file table): "
+		if prop == "C06" || prop == "C15" {
+			for _, L := range Ls {
+				for part := 0; part < 4; part++ {
+					add(&Job{Name: fmt.Sprintf("request-side/L=%d,retries=%d,part=%d", L, retries, part), Pkg: "buffer", Harness: "VerifBufferServe", Params: p("mode", 0, "L", L, "retries", retries, "part", part, "wide", 0), IncKind: "cvc5", TimeoutS: 60,
+						Bounds: bd + fmt.Sprintf("request body of %d bytes delivered in chunks of 1..3, declared or chunked framing, POST/HEAD; request max/mem thresholds symbolic among unlimited and the values below/equal/above the size; handler reads all or a 2-byte prefix, mutates URL/headers/method; up to %d retries decided symbolically; fixed small response", L, retries)})
+				}
+			}
+		}
+		if prop == "C07" || prop == "C15" {
+			for part := 0; part < 4; part++ {
+				add(&Job{Name: fmt.Sprintf("response-side/L=2,retries=%d,part=%d", retries, part), Pkg: "buffer", Harness: "VerifBufferServe", Params: p("mode", 1, "L", 2, "retries", retries, "part", part, "wide", wide), IncKind: "cvc5", TimeoutS: 60,
+					Bounds: bd + fmt.Sprintf("handler answers no/200/502/204/404 status with 0..2 writes of 0/1/3 bytes per attempt; response max in {unlimited,1,3,4}, mem in {1,2,3,7} (symbolic); POST/HEAD, declared/chunked; up to %d retries decided symbolically", retries)})
+			}
+		}
 	}
 	return js
 }
